@@ -109,7 +109,7 @@ func (fc *funcContext) translateStmt(stmt ast.Stmt, label *types.Label) {
 
 		if label != nil || analysis.HasBreak(clause) {
 			if label != nil {
-				fc.Printf("%s:", sanitizeName(label.Name()))
+				fc.Printf("%s:", labelName(label.Name()))
 			}
 			fc.Printf("switch (0) { default:")
 			fc.Indented(func() {
@@ -306,7 +306,7 @@ func (fc *funcContext) translateStmt(stmt ast.Stmt, label *types.Label) {
 		blockingLabel := ""
 		data := fc.flowDatas[nil]
 		if s.Label != nil {
-			normalLabel = " " + sanitizeName(s.Label.Name)
+			normalLabel = " " + labelName(s.Label.Name)
 			blockingLabel = " s" // use explicit label "s", because surrounding loop may not be flattened
 			data = fc.flowDatas[fc.pkgCtx.Uses[s.Label].(*types.Label)]
 		}
@@ -461,7 +461,7 @@ func (fc *funcContext) translateStmt(stmt ast.Stmt, label *types.Label) {
 	case *ast.LabeledStmt:
 		label := fc.pkgCtx.Defs[s.Label].(*types.Label)
 		if fc.GotoLabel[label] {
-			fc.PrintCond(false, sanitizeName(s.Label.Name)+":", fmt.Sprintf("case %d:", fc.labelCase(label)))
+			fc.PrintCond(false, labelName(s.Label.Name)+":", fmt.Sprintf("case %d:", fc.labelCase(label)))
 		}
 		fc.translateStmt(s.Stmt, label)
 
@@ -547,6 +547,16 @@ func (fc *funcContext) translateStmt(stmt ast.Stmt, label *types.Label) {
 	}
 }
 
+// labelName returns the JavaScript label for a Go label. Functions that can be suspended wrap their body in a loop
+// labelled "s" (the target of "break s" at every suspension point), which a Go label must not shadow.
+func labelName(name string) string {
+	name = sanitizeName(name)
+	if name == "s" {
+		return "s$"
+	}
+	return name
+}
+
 // sendChanOperand returns the channel operand of a send statement. The value operand is translated ahead of the
 // $send call; if its evaluation may block (and is therefore written out in front of the statement), the channel
 // operand, which Go evaluates first, is evaluated into a temporary variable before it.
@@ -601,7 +611,7 @@ func (fc *funcContext) translateBranchingStmt(caseClauses []*ast.CaseClause, def
 	}
 
 	if label != nil && !flatten {
-		fc.Printf("%s:", sanitizeName(label.Name()))
+		fc.Printf("%s:", labelName(label.Name()))
 	}
 
 	condStrs := make([]string, len(caseClauses))
@@ -667,7 +677,7 @@ func (fc *funcContext) translateLoopingStmt(cond func() string, body *ast.BlockS
 	}()
 
 	if !flatten && label != nil {
-		fc.Printf("%s:", sanitizeName(label.Name()))
+		fc.Printf("%s:", labelName(label.Name()))
 	}
 	isTerminated := false
 	fc.PrintCond(!flatten, "while (true) {", fmt.Sprintf("case %d:", data.beginCase))
